@@ -1419,6 +1419,8 @@ class Interp:
         ev = tuple((e[0], e[1]) + tuple(vkey(x) if hasattr(x, 'key') else (tuple(vkey(y) for y in x) if isinstance(x, list) else x)
                                         for x in e[2:])
                    for e in s.trace if self.rule.keep_event(e))
+        if hasattr(self.rule, 'event_sig'):
+            ev = self.rule.event_sig(ev)        # a rule may only need a coarser view of the kept events (e.g. "some allocation failed")
         pc = tuple((vkey(p[0]), p[1], p[2]) for p in s.pc) if self.rule.track_pc else ()
         return (vkey(rv), memsig, frozenset(s.zero), pf, cf, ef, canon_ts(s.ts), ev, pc,
                 tuple(c[:3] for c in s.cleanups))
